@@ -2,7 +2,7 @@
    Model/EqHash.v vs the observed results of ==, hash() on a pair of objects.
    [cx], [cy]: the values the two objects hold, read back through their public attributes. *)
 From Coq Require Import QArith ZArith List Bool String.
-From CR Require Import Model.EqHash Gen.Tables_C12 Model.EqHashSpecs Corr.Obs.
+From CR Require Import Model.EqHash Model.EqHashTypes Gen.Tables_C12 Model.EqHashSpecs Corr.Obs.
 Import ListNotations.
 
 Record case := MkCase {
@@ -37,8 +37,13 @@ Fixpoint shape_ok (v : value) : bool :=
   | _ => true
   end.
 
+(* every attribute (recursively) holds a value of its generated type: the instance lies in the domain of the
+   totality theorem of hash (C12_hash_total), and the type table describes what the constructors store *)
+Definition typed_ok (v : value) : bool :=
+  match v with VObj c _ => has_ty types_C12 v (TY [AObj c]) | _ => false end.
+
 Definition check (c : case) : bool :=
-  shape_ok (cx c) && shape_ok (cy c) &&
+  shape_ok (cx c) && shape_ok (cy c) && typed_ok (cx c) && typed_ok (cy c) &&
   eqb_obs_b (Some (eqv T_C12 (cx c) (cy c))) (o_eq c) &&
   eqb_obs_b (Some (eqv T_C12 (cy c) (cx c))) (o_qe c) &&
   Bool.eqb (is_some (hkey T_C12 (cx c))) (o_hx c) &&
@@ -51,7 +56,7 @@ Definition check (c : case) : bool :=
 
 (* which conjunct failed (printed for disagreeing cases only) *)
 Definition explain (c : case) : list bool :=
-  [shape_ok (cx c); shape_ok (cy c);
+  [shape_ok (cx c); shape_ok (cy c); typed_ok (cx c); typed_ok (cy c);
    eqb_obs_b (Some (eqv T_C12 (cx c) (cy c))) (o_eq c);
    eqb_obs_b (Some (eqv T_C12 (cy c) (cx c))) (o_qe c);
    Bool.eqb (is_some (hkey T_C12 (cx c))) (o_hx c);
